@@ -280,6 +280,8 @@ def dump_space(res, shape, Wsets, mixin=None, fam='dump'):
         b = models.build(spec)
         dumps = yatiml.dumps_function(*b.registered)
         dumps_json = yatiml.dumps_json_function(*b.registered)
+        # the order in which the classes are given to the function must not matter (derived classes before their bases)
+        dumps_rev = yatiml.dumps_function(*reversed(b.registered))
         res.states += 1
         for i in range(n):
             for position in ('top', 'list', 'dict', 'attr'):
@@ -293,7 +295,7 @@ def dump_space(res, shape, Wsets, mixin=None, fam='dump'):
                     v, cls_at = {'k': mk(i), 'l': mk(n - 1)}, [(('k',), i), (('l',), n - 1)]
                 else:
                     v, cls_at = b.classes['H'](mk(i)), [(('h',), i)]
-                for fn_name, fn in (('dumps', dumps), ('dumps_json', dumps_json)):
+                for fn_name, fn in (('dumps', dumps), ('dumps_json', dumps_json), ('dumps[classes in reverse order]', dumps_rev)):
                     res.states += 1
                     res.transitions += 1
                     res.traces += 1
